@@ -171,7 +171,10 @@ pub fn random_cfg(rng: &mut StdRng, profile: &str, ops: usize, kf: &[String]) ->
     _ => rng.random_bool(0.55),
   };
   if timed {
-    match rng.random_range(0..4) {
+    // the ttl profile combines a TTL with an idle timeout more often (each read path checks both deadlines)
+    let r = rng.random_range(0..4);
+    let r = if profile == "ttl" && r == 3 && rng.random_bool(0.6) { 2 } else { r };
+    match r {
       0 => c.ttl = pick(rng, &[10, 20, 30, 50, 15, 25, 12, 23, 44]),
       1 => c.tti = pick(rng, &[10, 20, 40, 15]),
       2 => {
@@ -833,6 +836,10 @@ impl Sim {
       "iter" => [24, 5, 1, 2, 3, 4, 2, 2, 22, 6, 5, 4, 2, 8],
       _ => [16, 6, 2, 5, 6, 12, 4, 6, 6, 2, 2, 7, 3, 10],
     };
+    let mut w = w;
+    if p == "ttl" && self.cfg.loader > 0 {
+      w[7] = 18; // fetch_with has its own hit / stale / miss paths
+    }
     let timed = self.cfg.ttl > 0 || self.cfg.tti > 0;
     let total: u32 = w.iter().sum();
     for _ in 0..self.cfg.ops {
